@@ -3,6 +3,7 @@ package rules
 import (
 	"go/ast"
 	"go/token"
+	"go/types"
 	"sort"
 	"strings"
 
@@ -253,6 +254,82 @@ func runC16(p *eng.Prog, r *eng.Report, tier string) {
 			okS := ok && affine(ut, sl.Low) == "+1+def:bytes.IndexRune+r1" && affine(ut, sl.High) == "+3+def:bytes.IndexRune+r1"
 			c.r.Check("C16.3", ut, "tested escape sequence position", "E-aff: the two characters tested are src[nSrc+idx+1 : nSrc+idx+3]", cl.Pos(), okS, "")
 		}
+	}
+	// the convenience methods go through the transform package's drivers, which
+	// grow the destination on ErrShortDst and feed the source in chunks: a
+	// direct Transform into a fixed buffer with the error discarded truncates
+	// (Escape expands up to three times)
+	for _, k := range []struct{ name, want string }{
+		{"Transformer.String", "golang.org/x/text/transform.String(recv,*p0*)#0"},
+		{"Transformer.Bytes", "golang.org/x/text/transform.Bytes(recv,*p0*)#0"},
+	} {
+		cf := c.fn("C16.7", "jid", k.name)
+		if cf == nil {
+			continue
+		}
+		cg := cf.Graph()
+		nr := 0
+		for _, rs := range cg.Returns {
+			if len(rs.Results) != 1 {
+				continue
+			}
+			nr++
+			rp, _ := cg.Where(rs)
+			got := cf.Norm(rs.Results[0], &rp)
+			c.r.Check("C16.7", cf, "result comes from the transform driver", "P: every return of "+k.name+" is the first result of "+strings.Split(k.want, "(")[0]+"(t, input)", rs.Pos(), eng.Glob(k.want, got), "returns "+got)
+		}
+		c.r.Floor("C16.7", "returns of "+k.name, nr, 1)
+	}
+	// the source ranges copied to the output by unescapeMapping.Transform: what
+	// is copied without being looked at is text up to a backslash, through a
+	// backslash that was tested not to start an escape sequence, or the rest of
+	// the chunk (C16.5). A range that reaches further (the byte after the
+	// backslash as well) swallows a byte that may itself be a backslash
+	// starting a sequence.
+	if ut != nil {
+		allowedHigh := map[string]string{
+			"":                          "the rest of the chunk (justified by C16.5)",
+			"+def:bytes.IndexRune+r1":   "up to the backslash",
+			"+1+def:bytes.IndexRune+r1": "through the backslash",
+		}
+		nc := 0
+		for _, cl := range ut.Calls("builtin.copy") {
+			if len(cl.Args) != 2 {
+				continue
+			}
+			sl, ok := ast.Unparen(cl.Args[1]).(*ast.SliceExpr)
+			if !ok || ut.Norm(sl.X, nil) != "p1" {
+				continue
+			}
+			nc++
+			hi := ""
+			if sl.High != nil {
+				hi = affine(ut, sl.High)
+			}
+			_, okh := allowedHigh[hi]
+			// a local upper bound is fine if it is the chunk's end or one less
+			if !okh && sl.High != nil {
+				if idn, isID := ast.Unparen(sl.High).(*ast.Ident); isID {
+					if v, isV := ut.Info().ObjectOf(idn).(*types.Var); isV {
+						okh = true
+						for _, d := range ut.Graph().DefsOf(v) {
+							switch d.Kind {
+							case eng.DefPlain:
+								if d.RHS == nil || ut.Norm(d.RHS, nil) != "builtin.len(p1)" {
+									okh = false
+								}
+							case eng.DefOpaque:
+								// end-- (one byte kept back for the next chunk)
+							default:
+								okh = false
+							}
+						}
+					}
+				}
+			}
+			c.r.Check("C16.3", ut, "source range copied "+hi, "E-aff: a range copied to the output ends at the backslash, just behind it, or at the end of the chunk", cl.Pos(), okh, "the copied range ends at "+hi+": bytes behind the backslash are emitted without having been examined")
+		}
+		c.r.Floor("C16.3", "copies from the source in unescapeMapping.Transform", nc, 5)
 	}
 	// ---- C16.5 the rest of a chunk is declared clean only when it is ------------------------
 	// Consuming "everything up to the end of src" as literal text is justified
